@@ -8,7 +8,10 @@ SPEC = {
                   "ndp.ParseMessage; holds also evaluates cfg_ok on what config.Parse accepted.",
     "level_note": "Trusted: Coq kernel + vm_compute; the field-level codec model of mdlayher/ndp v1.1.0 (float64 Seconds() rounding and the uint8 "
                   "length overflow are modelled explicitly); DNS names / URIs are opaque (only their byte length enters the model).",
-    "drivers": [{"pkg": "internal/config", "test": "TestVerifC03", "timeout": 1500}],
+    "drivers": [{"pkg": "internal/config", "test": "TestVerifC03", "timeout": 1500},
+                # a running Advertiser re-dialled onto an interface that changed (hardware address present / absent): every RA
+                # handed to the socket is encodable
+                {"pkg": "internal/corerad", "test": "TestVerifC01Redial", "newgo": True, "timeout": 300, "arch386": []}],
     "known_classes": {1: "float_seconds_roundup", 2: "option_over_248_bytes"},
     "rule": "corpus (one witness per known-finding class, the repaired defects, field limits) then the C01 generator biased to extreme durations "
             "(1ns, sub-second, 2^24 s and 2^31 s with fractions around the float round-up window, 4294967294.999999xxx s, infinite, out-of-range and "
